@@ -152,6 +152,9 @@ impl SymbolList {
                     // findest smallest symbol size to hold data with base256
                     s.capacity().min >= input_len
                 })
+                // longer inputs may still fit with a denser encodation,
+                // the biggest symbol is then the limit
+                .or_else(|| self.symbols.iter().next_back())
                 .map(SymbolSize::num_data_codewords)
         }
     }
